@@ -329,6 +329,10 @@ def amoco_run(v, mode):
         return res
     res["dec"] = 1
     res["mn"] = str(ins.mnemonic)
+    if ("i_%s" % ins.mnemonic) not in cpu.uarch:
+        # no semantics function: instruction.__call__ only logs a warning and leaves the state untouched
+        res["raised"] = "nosem"
+        return res
     try:
         ins(m)
     except Exception as ex:
@@ -483,8 +487,73 @@ def form_label(f):
     return "%d:%s" % (f["sz"], ks.strip(","))
 
 
+CCNAMES = ["O", "NO", "B", "AE", "E", "NE", "BE", "A", "S", "NS", "P", "NP", "L", "GE", "LE", "G"]
+
+
 def mnemonic_of(f):
+    if f["mn"] in ("setcc", "cmovcc", "jcc"):
+        return "%s.%s" % (f["mn"][:-2].upper() + "cc", CCNAMES[f["cc"]])
     return f["mn"].upper()
+
+
+def clause_of(b, f, am):
+    """name of a deviating output for finding keys: dst / src / src2 for the form's own registers, the architectural
+    name for implicit ones, the flag name, mem, rip, out, raised:<exception type>, nosem"""
+    if b == "raised":
+        r = am.get("raised", "")
+        return "nosem" if r == "nosem" else "raised:" + r.split(":")[0 if not r.startswith(("decode:", "observe:")) else 1].strip()
+    if b in R64:
+        i = R64.index(b)
+        for name, o in (("dst", f["o1"]), ("src", f["o2"]), ("src2", f["o3"])):
+            if o["k"] == "r" and (o["n"] - 4 if o["h"] else o["n"]) == i:
+                return name
+        return b
+    return b
+
+
+HINTS = {
+    "pf": "PF is the inverse of the processor's (parity8 looks the folded nibble up in 0x6996, the table of ODD parity)",
+    "sf": "SF is computed as `x < 0` on a value that is read as unsigned, so it is always 0",
+    "nosem": "the instruction decodes but has no semantics function: nothing changes, not even rip",
+}
+
+
+def report(ctx, vectors, traces, verdicts, source):
+    """turn X86Trace verdicts into ctx.fail / ctx.drift; a disagreement between the specification and the processor
+    is a broken oracle (MachineryError)"""
+    broken = []
+    st = {"compared": 0, "skipped": {}, "unknown_outputs": 0, "undecoded": 0, "x86_mode": 0}
+    for v, tr in zip(vectors, traces):
+        vd = verdicts[tr["t"]]
+        f = v["f"]
+        if vd["sc"]:
+            broken.append("%s [%s] %s" % (v["k"], v["hex"], vd["sc"]))
+            continue
+        if vd["skip"]:
+            st["skipped"][vd["skip"]] = st["skipped"].get(vd["skip"], 0) + 1
+            continue
+        st["compared"] += 1
+        ctx.case(key=("x86", source[:1], mnemonic_of(f), f["sz"], form_label(f)), n=0)
+        for a, am in zip(vd["am"], tr["ams"]):
+            mode = a["mode"]
+            if mode == "x86":
+                st["x86_mode"] += 1
+            if a["undec"]:
+                st["undecoded"] += 1
+                ctx.drift("%s: %s [%s] not decoded by amoco (outside the statement: nothing to apply)" % (mode, v["k"], v["hex"]))
+                continue
+            st["unknown_outputs"] += len(a["unk"])
+            for b in sorted(a["bad"]):
+                cl = clause_of(b, f, am)
+                key = "C06:%s:%s:%d:%s" % (mode, mnemonic_of(f), f["sz"], cl)
+                ctx.fail(key, "%s `%s` (bytes %s): amoco's %s differs from what the processor (and specs/X86.tla) produce%s"
+                         % (mode, v["k"], v["hex"], cl, ("; " + HINTS[cl]) if cl in HINTS else ""),
+                         {"isa": mode, "source": source, "vector": {k_: v[k_] for k_ in ("k", "hex", "r", "fl", "m")},
+                          "cpu": tr["cpu"], "amoco": am, "verdict": a})
+    if broken:
+        raise tlc.MachineryError("specs/X86.tla disagrees with the processor on %d vectors (%s), e.g. %s"
+                                 % (len(broken), source, "; ".join(broken[:5])))
+    return st
 
 
 def repro(isa, hexbytes, kv):
@@ -512,3 +581,45 @@ def repro(isa, hexbytes, kv):
                 if c["r"][i] != regs[i]:
                     print("  cpu   %s: %#x -> %#x" % (n, regs[i], c["r"][i]))
             print("  cpu   flags:", flrec(c["fl"]), " rip delta:", c["rip"])
+
+
+# --------------------------------------------------------------------------------------------
+# the vendored processor executions
+def load_corpus():
+    meta = {}
+    lines = []
+    with gzip.open(CORPUS, "rb") as f:
+        for ln in f:
+            d = json.loads(ln.decode())
+            if "meta" in d:
+                meta = d["meta"]
+            else:
+                lines.append(d)
+    return meta, lines
+
+
+def corpus_vector(d, forms, enc):
+    """(vector, cpu result) of a corpus line; None when the form is not one TLC enumerates today"""
+    rec = forms.get(d["k"])
+    if rec is None:
+        return None
+    code = form_bytes(rec, enc)
+    if code is None:
+        return None
+    f = rec["f"]
+    regs = [int(x, 16) for x in d["r"]]
+    v = {"k": d["k"], "f": f, "hex": code.hex(), "len": len(code), "br": f["o1"]["v"] if f["mn"] == "jcc" else 0,
+         "r": regs, "fl": d["fl"], "m": d["m"]}
+    c = d["c"]
+    if c["sig"]:
+        cpu = {"sig": c["sig"]}
+    else:
+        r = list(regs)
+        for i, x in c["r"].items():
+            r[int(i)] = int(x, 16)
+        m = bytearray(bytes.fromhex(d["m"]))
+        for off, hx in c["m"]:
+            b = bytes.fromhex(hx)
+            m[off:off + len(b)] = b
+        cpu = {"sig": 0, "fl": c["fl"], "r": r, "m": bytes(m).hex(), "rip": c["rip"]}
+    return v, cpu
